@@ -183,7 +183,10 @@ def run_cases(mod, tier, seed, shard, nshards, limit_s):
                 out.errors.append(f'time budget {limit_s}s reached at case '
                                   f'{index}; remaining cases not run')
                 break
-            res = mod.run_case(case)
+            try:
+                res = mod.run_case(case)
+            except Exception as ex:
+                res = escaped_exception(mod, case, ex)
             out.evaluations += 1
             out.stats.update(res.stats)
             for k, v in res.tags.items():
@@ -209,6 +212,29 @@ def run_cases(mod, tier, seed, shard, nshards, limit_s):
     return out
 
 
+def escaped_exception(mod, case, ex):
+    """An exception left run_case. If desper code is on the traceback the
+    library raised (or let something raise) where the monitor expected a
+    value: that is an observation and is reported as a divergence. If no
+    desper frame is involved it is a defect of the harness: re-raise."""
+    from vf.core import Res
+    frames = traceback.extract_tb(ex.__traceback__)
+    inside = [f for f in frames if os.path.abspath(f.filename).startswith(
+        os.path.join(DESPER_ROOT, 'desper') + os.sep)]
+    if not inside:
+        raise ex
+    res = Res()
+    last = inside[-1]
+    res.div(-1, 'exception-escaped-from-desper',
+            f'{type(ex).__name__}: {ex} raised through '
+            f'{os.path.relpath(last.filename, DESPER_ROOT)}:{last.lineno} '
+            f'({last.name}) where the monitor expected a result',
+            expected='a result', observed=repr(ex),
+            traceback=[f'{os.path.basename(f.filename)}:{f.lineno} {f.name}'
+                       for f in frames[-6:]])
+    return res
+
+
 def shrink(mod, case, div):
     """Greedy minimisation; every candidate is re-judged by the oracle."""
     runs = 0
@@ -219,8 +245,11 @@ def shrink(mod, case, div):
         runs += 1
         try:
             res = mod.run_case(cand)
-        except Exception:
-            return None
+        except Exception as ex:
+            try:
+                res = escaped_exception(mod, cand, ex)
+            except Exception:
+                return None
         violation, _ = judge(mod, cand, res)
         if violation is not None and violation['kind'] == div['kind']:
             return violation
@@ -300,7 +329,10 @@ def replay_main(args):
     with open(args.replay) as fin:
         data = json.load(fin)
     case = data['case'] if 'case' in data else data
-    res = mod.run_case(case)
+    try:
+        res = mod.run_case(case)
+    except Exception as ex:
+        res = escaped_exception(mod, case, ex)
     violation, mech = judge(mod, case, res)
     print(json.dumps({'divergences': res.divs[:5], 'sample': res.sample},
                      indent=1, default=repr))
